@@ -46,10 +46,11 @@ def sweep_stale(max_age_s=6 * 3600):
     base = tempfile.gettempdir()
     now = time.time()
     for name in os.listdir(base):
-        if name.startswith(("ioosqc-run-", "ioosqc-sim-", "ioosqc-replay-", "ioosqc-selftest-", "ioosqc-mut-", "ioosqc-warm-")):
+        # (not ioosqc-mut-*: those are copies of /repo whose mtime is the repository's, and their owner removes them)
+        if name.startswith(("ioosqc-run-", "ioosqc-sim-", "ioosqc-replay-", "ioosqc-selftest-", "ioosqc-warm-")):
             path = os.path.join(base, name)
             try:
-                if now - os.path.getmtime(path) > max_age_s:
+                if now - os.stat(path).st_ctime > max_age_s:
                     shutil.rmtree(path, ignore_errors=True)
             except OSError:
                 pass
